@@ -1,0 +1,112 @@
+//go:build verif
+
+package verifapi
+
+// Hooks of the WHERE "<expr>" half of the filter check (C12).
+
+import (
+	"fmt"
+	"math"
+	"regexp"
+	"strconv"
+
+	"github.com/tidwall/geojson"
+	"github.com/tidwall/geojson/geometry"
+	"github.com/tidwall/match"
+	"github.com/tidwall/tile38/internal/collection"
+	"github.com/tidwall/tile38/internal/field"
+	"github.com/tidwall/tile38/internal/object"
+	"github.com/tidwall/tile38/internal/server"
+)
+
+// WxObject is an object as the expression evaluator sees it.
+type WxObject struct{ o *object.Object }
+
+// WxNewObject builds object.New(id, geo, 0, fields): a POINT lat lon when str
+// is nil, the string object *str otherwise; fields are (name, token) pairs
+// that go through field.Make like FIELD arguments of SET.
+func WxNewObject(id string, lat, lon float64, str *string, fields [][2]string) WxObject {
+	var fl []field.Field
+	for _, f := range fields {
+		fl = append(fl, field.Make(f[0], f[1]))
+	}
+	var g geojson.Object
+	if str == nil {
+		g = geojson.NewPoint(geometry.Point{X: lon, Y: lat})
+	} else {
+		g = collection.String(*str)
+	}
+	return WxObject{object.New(id, g, 0, field.MakeList(fl))}
+}
+
+// WxNewGeoJSON builds an object from a GeoJSON text (Feature with members etc.).
+func WxNewGeoJSON(id string, json string, fields [][2]string) (WxObject, error) {
+	g, err := geojson.Parse(json, nil)
+	if err != nil {
+		return WxObject{}, err
+	}
+	var fl []field.Field
+	for _, f := range fields {
+		fl = append(fl, field.Make(f[0], f[1]))
+	}
+	return WxObject{object.New(id, g, 0, field.MakeList(fl))}, nil
+}
+
+// WxMatch = whereT{name: expr, expr: true}.matchExpr(server, object).
+func WxMatch(expr string, o WxObject) (matched bool, panicked string) {
+	defer func() {
+		if r := recover(); r != nil {
+			panicked = fmt.Sprint(r)
+		}
+	}()
+	return server.VerifWhereExprMatch(expr, o.o), ""
+}
+
+// WxEval = expr.Eval(expr, server context for object): canonical value, error
+// text, Value.Bool().
+func WxEval(expr string, o WxObject) (val, errText string, truth bool, panicked string) {
+	defer func() {
+		if r := recover(); r != nil {
+			panicked = fmt.Sprint(r)
+		}
+	}()
+	val, errText, truth = server.VerifWhereExprEval(expr, o.o)
+	return
+}
+
+// WxDetectExprToken = detectExprToken(tokens after WHERE).
+func WxDetectExprToken(vs []string) (bool, string) { return server.VerifDetectExprToken(vs) }
+
+// Direct library calls behind the oracle record of the expression model
+// (not through the evaluator under test).
+
+// WxJSONGet = resultToValue(gjson.Parse(raw).Get(path)), canonical spelling.
+func WxJSONGet(raw, path string) string { return server.VerifResultToValue(raw, path) }
+
+// WxGlobNoCase = match.MatchNoCase(str, pattern) (tidwall/match).
+func WxGlobNoCase(str, pattern string) bool { return match.MatchNoCase(str, pattern) }
+
+// WxRegex = regexp.Compile(pattern) then MatchString(subject).
+func WxRegex(pattern, subject string) (matched bool, compiles bool) {
+	re, err := regexp.Compile(pattern)
+	if err != nil {
+		return false, false
+	}
+	return re.MatchString(subject), true
+}
+
+// WxParseFloat = strconv.ParseFloat(s, 64) as (bits, ok).
+func WxParseFloat(s string) (uint64, bool) {
+	f, err := strconv.ParseFloat(s, 64)
+	return math.Float64bits(f), err == nil
+}
+
+// WxFtoa = conv.Ftoa, WxFtoi = conv.Ftoi (tidwall/conv).
+func WxFtoa(bits uint64) string { return server.VerifFtoa(math.Float64frombits(bits)) }
+func WxFtoi(bits uint64) int64  { return server.VerifFtoi(math.Float64frombits(bits)) }
+
+// String = o.String() of the wrapped object (what `this` converts to).
+func (o WxObject) String() string { return o.o.String() }
+
+// MembersGet = gjson.Get(o.Geo().Members(), ident) as (exists, resultToValue).
+func (o WxObject) MembersGet(ident string) (bool, string) { return server.VerifMembersGet(o.o, ident) }
